@@ -32,14 +32,16 @@ def body_src(body, traced, is_async):
 
 def attr(case, n):
     args = []
-    if case["kind"] == "eop":
+    if case["kind"] in ("eop", "atrait_eop"):
         args.append("enter_on_poll = true")
     if case["naming"] in ("short", "short_f"):
         args.append("short_name = true")
     elif case["naming"] == "custom":
         args.append('name = "custom_%d"' % n)
-    p = case["props"] if case["kind"] != "eop" else "none"
-    if p == "literal":
+    p = case["props"] if case["kind"] not in ("eop", "atrait_eop") else "none"
+    if p == "closing":
+        args.append('properties = { "k": "limit 100}}" }')
+    elif p == "literal":
         args.append('properties = { "k1": "v1", "k2": "v 2" }')
     elif p == "format":
         args.append('properties = { "k": "a={a} r={r}" }')
@@ -51,8 +53,8 @@ def attr(case, n):
 
 
 def expected_props(case):
-    p = case["props"] if case["kind"] != "eop" else "none"
-    return {"none": [], "literal": [["k1", "v1"], ["k2", "v 2"]], "format": [["k", "a=1 r=rr"]], "escaped": [["k", "{x}"]], "both": [["k", "{1}"]]}[p]
+    p = case["props"] if case["kind"] not in ("eop", "atrait_eop") else "none"
+    return {"closing": [["k", "limit 100}"]], "none": [], "literal": [["k1", "v1"], ["k2", "v 2"]], "format": [["k", "a=1 r=rr"]], "escaped": [["k", "{x}"]], "both": [["k", "{1}"]]}[p]
 
 
 PARAMS = "log: &mut Log, a: i32, s: String, r: &str, go: bool, path: &mut String"
@@ -61,8 +63,8 @@ ARGS = '1, "ss".to_string(), "rr", true'
 
 def gen_case(n, case):
     kind = case["kind"]
-    is_async = kind in ("async", "eop", "amethod", "atrait")
-    is_method = kind in ("method", "amethod", "atrait")
+    is_async = kind in ("async", "eop", "amethod", "atrait", "atrait_eop")
+    is_method = kind in ("method", "amethod", "atrait", "atrait_eop")
     head = "*path = fastrace::func_path!().to_string();"
     fns = []
     isf = case["naming"] in ("default_f", "short_f")
@@ -81,7 +83,7 @@ def gen_case(n, case):
         else:
             sig = "%sfn %s(%s) -> Result<i32, String>" % (asy, name, PARAMS)
         fns.append((a, sig, "%s\n        %s\n        Ok(42)" % (head, b)))
-    if kind == "atrait":
+    if kind in ("atrait", "atrait_eop"):
         decl = "    #[async_trait::async_trait(?Send)]\n    pub trait T {\n" + "".join("        %s;\n" % sig for _, sig in [(f[0], f[1]) for f in fns]) + "    }\n"
         impl = "    #[async_trait::async_trait(?Send)]\n    impl T for S {\n" + "".join("        %s\n        %s {\n        %s\n        }\n" % f for f in fns) + "    }\n"
         defs = "    pub struct S;\n" + decl + impl
